@@ -7,9 +7,10 @@
    implementation by the numeric correspondence on directed inputs (Gen.model, T-num) and its branch
    skeleton by the AST pass.  Over R (L-real); floating-point residuals are measured by the oracle.
 
-   Faithful model => the full-strength statements are FALSE (the code raises TypeError when the vector part
-   handed to unitvec is at or below its threshold) and exp re-normalises inside a band: each statement is
-   given as  _refuted (witness)  +  _partial (guarded)  /  _band (what is returned instead, with its error). *)
+   After the repairs b361ecf (log takes the angle by atan2 and the direction as v/|v|, no threshold) and
+   dbb1296 (exp of a real quaternion) the round trips hold for EVERY q of the property's domain; the only
+   deviation left is the deliberate one of exp(): for |s| < t_exp (100 eps) its result is a UnitQuaternion,
+   i.e. normalised -- a relative error below 2 t_exp <= 1e-9, three decades inside the property's tolerance. *)
 From Coq Require Import Reals ZArith Lra Lia.
 From SM Require Import Base.Ops Base.Lin Base.RInst Model.C12_ExpLog Model.C12_ExpLogR.
 From SMgen Require Import Consts_C12.
@@ -17,127 +18,136 @@ Open Scope R_scope.
 
 Definition KR : qthr R := C12_thr Rops.
 Notation texp := (t_exp KR).
-Notation tuv := (t_unitvec KR).
 Notation tun := (t_unit KR).
 
 (* ---- side conditions on the REGENERATED thresholds: a changed constant breaks this theorem ----
    2 * t_exp is the relative error exp() commits inside its re-normalisation band (C12_exp_log_band below):
-   it must stay three decades under the property's tolerance 1e-6;  t_unitvec bounds the set of non-zero
-   vector parts on which log() raises: it must stay under the smallest vector norm 1e-12 of the oracle's domain *)
+   it must stay three decades under the property's tolerance 1e-6 *)
 Theorem C12_thresholds_small :
-  0 < texp /\ 2 * texp <= 1 / 1000000000 /\ 0 < tuv /\ tuv <= 1 / 1000000000000 /\ 0 < tun /\ tun <= 1 / 2.
-Proof. unfold KR, C12_thr; sm_simpl; cbn [t_exp t_unitvec t_unit]; repeat split; lra. Qed.
+  0 < texp /\ 2 * texp <= 1 / 1000000000 /\ 0 < tun /\ tun <= 1 / 2.
+Proof. unfold KR, C12_thr; sm_simpl; cbn [t_exp t_unit]; repeat split; lra. Qed.
 Print Assumptions C12_thresholds_small.
 
-Ltac thr := destruct C12_thresholds_small as (Hte0 & Hte & Htu0 & Htu & Htn0 & Htn).
+Ltac thr := destruct C12_thresholds_small as (Hte0 & Hte & Htn0 & Htn).
 
 (* ================================================================ exp(log q) *)
-(* full statement (FALSE of the code as it is):
-     forall q, vector part of q <> 0 -> exp(log q) = q                                        *)
-Theorem C12_exp_log_refuted : exists s x y z : R,
-  nv3 x y z <> 0 /\ qexp_log Rops KR (s,x,y,z) = TypeErr.
-Proof.
-  thr. exists 1, (tuv / 2), 0, 0.
-  assert (Hn : nv3 (tuv / 2) 0 0 = tuv / 2) by (apply nv3_axis; lra).
-  split; [rewrite Hn; lra|].
-  unfold qexp_log. rewrite qlog_R_none; [reflexivity | rewrite Hn; lra |].
-  pose proof (nq4_sq 1 (tuv/2) 0 0). pose proof (nq4_nonneg 1 (tuv/2) 0 0). pose proof (nv3_nonneg (tuv/2) 0 0). nra.
-Qed.
-Print Assumptions C12_exp_log_refuted.
-
-(* every q whose vector part is at or below the unitvec threshold (the real quaternions among them): TypeError *)
-Theorem C12_exp_log_raises_below_threshold : forall s x y z : R,
-  nv3 x y z <= tuv -> 0 < nq4 s x y z -> qexp_log Rops KR (s,x,y,z) = TypeErr.
-Proof. intros. unfold qexp_log. rewrite qlog_R_none by assumption. reflexivity. Qed.
-Print Assumptions C12_exp_log_raises_below_threshold.
-
-(* guarded: vector part above the unitvec threshold, |q| outside the band | ln|q| | < t_exp: exactly q *)
-Theorem C12_exp_log_partial : forall s x y z : R,
-  tuv < nv3 x y z -> texp <= Rabs (ln (nq4 s x y z)) ->
+(* every q with non-zero vector part, |q| outside the band | ln|q| | < t_exp: exactly q *)
+Theorem C12_exp_log : forall s x y z : R,
+  0 < nv3 x y z -> texp <= Rabs (ln (nq4 s x y z)) ->
   qexp_log Rops KR (s,x,y,z) = Ok (s,x,y,z).
 Proof.
-  intros s x y z Hn Hb. thr. rewrite qexp_log_R by lra.
+  intros s x y z Hn Hb. rewrite qexp_log_R by assumption.
   replace (Rltb (Rabs (ln (nq4 s x y z))) texp) with false by (symmetry; apply Rltb_false; lra). reflexivity.
 Qed.
-Print Assumptions C12_exp_log_partial.
+Print Assumptions C12_exp_log.
 
 (* inside the band exp returns a UnitQuaternion: q / |q|, a relative error below 2 t_exp *)
 Theorem C12_exp_log_band : forall s x y z : R,
-  tuv < nv3 x y z -> Rabs (ln (nq4 s x y z)) < texp ->
+  0 < nv3 x y z -> Rabs (ln (nq4 s x y z)) < texp ->
   let N := nq4 s x y z in
   qexp_log Rops KR (s,x,y,z) = Ok (s / N, x / N, y / N, z / N) /\ Rabs (/ N - 1) < 2 * texp.
 Proof.
-  intros s x y z Hn Hb N. thr. assert (Hn0 : 0 < nv3 x y z) by lra.
+  intros s x y z Hn0 Hb N. thr.
   destruct (nq4_gt_s s x y z Hn0) as [HN _].
   destruct (ln_band (nq4 s x y z) texp HN Hb) as [Hlow Herr]; [lra|].
   split; [|exact Herr].
-  rewrite qexp_log_R by lra.
+  rewrite qexp_log_R by assumption.
   replace (Rltb (Rabs (ln (nq4 s x y z))) texp) with true by (symmetry; apply Rltb_true; lra).
   rewrite qunit_R by lra. reflexivity.
 Qed.
 Print Assumptions C12_exp_log_band.
 
-(* both cases: exp(log q) = c q with |c - 1| <= 1e-9 (three decades inside the property's 1e-6) *)
-Theorem C12_exp_log_within_tol : forall s x y z : R,
-  tuv < nv3 x y z ->
+(* the FULL statement, for every q with non-zero vector part: exp(log q) = c q with |c - 1| <= 1e-9 *)
+Theorem C12_exp_log_full : forall s x y z : R,
+  nv3 x y z <> 0 ->
   exists c : R, qexp_log Rops KR (s,x,y,z) = Ok (c * s, c * x, c * y, c * z) /\ Rabs (c - 1) <= 1 / 1000000000.
 Proof.
-  intros s x y z Hn. thr.
+  intros s x y z Hn. thr. assert (Hn0 : 0 < nv3 x y z) by (pose proof (nv3_nonneg x y z); lra).
   destruct (Rlt_dec (Rabs (ln (nq4 s x y z))) texp) as [Hb|Hb].
-  - destruct (C12_exp_log_band s x y z Hn Hb) as [E B]. exists (/ nq4 s x y z). split; [|lra].
+  - destruct (C12_exp_log_band s x y z Hn0 Hb) as [E B]. exists (/ nq4 s x y z). split; [|lra].
     rewrite E. unfold Rdiv. f_equal. tuple_eq ltac:(ring).
-  - exists 1. split; [rewrite C12_exp_log_partial by lra; f_equal; tuple_eq ltac:(ring)|].
+  - exists 1. split; [rewrite C12_exp_log by lra; f_equal; tuple_eq ltac:(ring)|].
     replace (1 - 1) with 0 by ring. rewrite Rabs_R0. lra.
 Qed.
-Print Assumptions C12_exp_log_within_tol.
+Print Assumptions C12_exp_log_full.
 
 (* ================================================================ log(exp q) *)
-(* full statement (FALSE of the code as it is):
-     forall q = (s, v), 0 < |v| < pi -> log(exp q) = q                                        *)
-Theorem C12_log_exp_refuted : exists s x y z : R,
-  0 < nv3 x y z < PI /\ qlog_exp Rops KR (s,x,y,z) = TypeErr.
-Proof.
-  thr. exists 1, (tuv / 3), 0, 0.
-  assert (Hn : nv3 (tuv / 3) 0 0 = tuv / 3) by (apply nv3_axis; lra).
-  pose proof PI2_3_2.
-  assert (Hr : 0 < nv3 (tuv / 3) 0 0 < PI) by (rewrite Hn; lra).
-  split; [exact Hr|].
-  apply qlog_exp_none_R; [exact Hr | rewrite Rabs_R1; lra |].
-  rewrite Hn. pose proof (sin_lt_x (tuv / 3)). pose proof exp_le_3. pose proof (exp_pos 1).
-  assert (0 < sin (tuv / 3)) by (apply sin_gt_0; lra). nra.
-Qed.
-Print Assumptions C12_log_exp_refuted.
-
-(* guarded: |v| in (0, pi), |s| outside the band, e^s sin|v| above the unitvec threshold: exactly q *)
-Theorem C12_log_exp_partial : forall s x y z : R,
-  0 < nv3 x y z < PI -> texp <= Rabs s -> tuv < exp s * sin (nv3 x y z) ->
+(* every q = (s, v) with |v| in (0, pi), |s| outside the band: exactly q *)
+Theorem C12_log_exp : forall s x y z : R,
+  0 < nv3 x y z < PI -> texp <= Rabs s ->
   qlog_exp Rops KR (s,x,y,z) = Ok (s,x,y,z).
-Proof. intros. thr. apply qlog_exp_R; [lra | assumption | assumption | assumption]. Qed.
-Print Assumptions C12_log_exp_partial.
+Proof. intros. apply qlog_exp_R; assumption. Qed.
+Print Assumptions C12_log_exp.
 
 (* inside the band |s| < t_exp the scalar part is lost: (0, v) instead of (s, v), an absolute error |s| < t_exp *)
 Theorem C12_log_exp_band : forall s x y z : R,
-  0 < nv3 x y z < PI -> Rabs s < texp -> tuv < sin (nv3 x y z) ->
+  0 < nv3 x y z < PI -> Rabs s < texp ->
   qlog_exp Rops KR (s,x,y,z) = Ok (0,x,y,z).
 Proof. intros. thr. apply qlog_exp_band_R; try assumption; lra. Qed.
 Print Assumptions C12_log_exp_band.
 
-Theorem C12_log_exp_within_tol : forall s x y z : R,
-  0 < nv3 x y z < PI -> tuv < exp s * sin (nv3 x y z) -> tuv < sin (nv3 x y z) ->
+(* the FULL statement, for every q with |v| in (0, pi): log(exp q) = (s - d, v) with |d| <= 1e-9 *)
+Theorem C12_log_exp_full : forall s x y z : R,
+  0 < nv3 x y z < PI ->
   exists d : R, qlog_exp Rops KR (s,x,y,z) = Ok (s - d, x, y, z) /\ Rabs d <= 1 / 1000000000.
 Proof.
-  intros s x y z Hn H1 H2. thr.
+  intros s x y z Hn. thr.
   destruct (Rlt_dec (Rabs s) texp) as [Hb|Hb].
   - exists s. split; [|lra]. rewrite C12_log_exp_band by assumption. f_equal. tuple_eq ltac:(ring).
-  - exists 0. split; [|rewrite Rabs_R0; lra]. rewrite C12_log_exp_partial by (try assumption; lra). f_equal. tuple_eq ltac:(ring).
+  - exists 0. split; [|rewrite Rabs_R0; lra]. rewrite C12_log_exp by (try assumption; lra). f_equal. tuple_eq ltac:(ring).
 Qed.
-Print Assumptions C12_log_exp_within_tol.
+Print Assumptions C12_log_exp_full.
 
-(* outside the property's domain, recorded because the model has the branch: exp of a real quaternion is
-   NaN (division of the vector part by its norm 0), the class of exp's result is decided by |s| < t_exp *)
-Theorem C12_exp_real_is_nan : forall s : R, qexp Rops KR (s,0,0,0) = NanRes.
-Proof. intros. apply qexp_R_nan. apply nv3_zero. Qed.
-Print Assumptions C12_exp_real_is_nan.
+(* ================================================================ real quaternions (outside the property's
+   round-trip domain; the repaired branches of the code) *)
+Theorem C12_log_real : forall s : R,
+  (0 < s -> qlog Rops (s,0,0,0) = Ok (ln s, 0, 0, 0)) /\ (s <= 0 -> qlog Rops (s,0,0,0) = ValueErr).
+Proof. intros s; split; intros H; [apply qlog_R_real_pos | apply qlog_R_real_neg]; exact H. Qed.
+Print Assumptions C12_log_real.
+
+Theorem C12_exp_real : forall s : R, texp <= Rabs s ->
+  qexp Rops KR (s,0,0,0) = Ok (false, (exp s, 0, 0, 0)).
+Proof.
+  intros s H. rewrite qexp_R_real.
+  replace (Rltb (Rabs s) texp) with false by (symmetry; apply Rltb_false; lra). reflexivity.
+Qed.
+Print Assumptions C12_exp_real.
+
+Theorem C12_exp_real_band : forall s : R, Rabs s < texp ->
+  qexp Rops KR (s,0,0,0) = Ok (true, (1, 0, 0, 0)) /\ Rabs (exp s - 1) < 2 * texp.
+Proof.
+  intros s H. thr. pose proof (exp_pos s) as He.
+  assert (Hb : Rabs (ln (exp s)) < texp) by (rewrite ln_exp; exact H).
+  destruct (ln_band (exp s) texp He Hb) as [Hlow _]; [lra|].
+  split.
+  - rewrite qexp_R_real.
+    replace (Rltb (Rabs s) texp) with true by (symmetry; apply Rltb_true; lra).
+    rewrite qunit_R by (rewrite nq4_real, Rabs_right; lra). cbv zeta. rewrite nq4_real, Rabs_right by lra.
+    cbn [qbind]. repeat f_equal; field; lra.
+  - (* e^{-t} < e^s < e^t *)
+    apply Rabs_def2 in H. destruct H as [H1 H2].
+    assert (E1 : exp (- texp) < exp s) by (apply exp_increasing; lra).
+    assert (E2 : exp s < exp texp) by (apply exp_increasing; lra).
+    pose proof (exp_ineq1 (- texp)). pose proof (exp_ineq1 texp).
+    assert (P : exp (- texp) * exp texp = 1) by (rewrite <- exp_plus; replace (- texp + texp) with 0 by ring; apply exp_0).
+    pose proof (exp_pos texp). pose proof (exp_pos (- texp)).
+    assert (U : exp texp * (1 - texp) < 1) by nra.
+    apply Rabs_def1; nra.
+Qed.
+Print Assumptions C12_exp_real_band.
+
+(* both round trips on positive real quaternions outside the bands *)
+Theorem C12_real_round_trips : forall s : R,
+  (0 < s -> texp <= Rabs (ln s) -> qexp_log Rops KR (s,0,0,0) = Ok (s,0,0,0)) /\
+  (texp <= Rabs s -> qlog_exp Rops KR (s,0,0,0) = Ok (s,0,0,0)).
+Proof.
+  intros s; split.
+  - intros Hs Hb. unfold qexp_log. rewrite qlog_R_real_pos by exact Hs. cbn [qbind]. unfold qexp_vec.
+    rewrite C12_exp_real by exact Hb. cbn [qbind snd]. rewrite exp_ln by exact Hs. reflexivity.
+  - intros Hb. unfold qlog_exp, qexp_vec. rewrite C12_exp_real by exact Hb. cbn [qbind snd].
+    rewrite qlog_R_real_pos by apply exp_pos. rewrite ln_exp. reflexivity.
+Qed.
+Print Assumptions C12_real_round_trips.
 
 Theorem C12_exp_class : forall s x y z : R, 0 < nv3 x y z ->
   qexp_is_unit Rops KR (s,x,y,z) = true -> Rabs s < texp.
@@ -148,32 +158,42 @@ Qed.
 Print Assumptions C12_exp_class.
 
 (* ================================================================ non-vacuity of the hypotheses *)
-Example C12_exp_log_partial_nonvacuous :
-  tuv < nv3 3 0 0 /\ texp <= Rabs (ln (nq4 0 3 0 0)) /\ qexp_log Rops KR (0,3,0,0) = Ok (0,3,0,0).
+Example C12_exp_log_nonvacuous :
+  0 < nv3 3 0 0 /\ texp <= Rabs (ln (nq4 0 3 0 0)) /\ qexp_log Rops KR (0,3,0,0) = Ok (0,3,0,0).
 Proof.
   thr. assert (Hn : nv3 3 0 0 = 3) by (apply nv3_axis; lra). assert (HN : nq4 0 3 0 0 = 3) by (apply nq4_axis; lra).
   assert (Hl : 1 <= ln 3).
   { rewrite <- (ln_exp 1). destruct exp_le_3 as [Hlt|Heq]; [apply Rlt_le, ln_increasing; [apply exp_pos | exact Hlt] | rewrite Heq; lra]. }
-  assert (A : tuv < nv3 3 0 0) by (rewrite Hn; lra).
+  assert (A : 0 < nv3 3 0 0) by (rewrite Hn; lra).
   assert (B : texp <= Rabs (ln (nq4 0 3 0 0))) by (rewrite HN, Rabs_right; lra).
-  repeat split; [exact A | exact B | apply C12_exp_log_partial; assumption].
+  repeat split; [exact A | exact B | apply C12_exp_log; assumption].
 Qed.
 
 Example C12_exp_log_band_nonvacuous :
-  tuv < nv3 1 0 0 /\ Rabs (ln (nq4 0 1 0 0)) < texp.
+  0 < nv3 1 0 0 /\ Rabs (ln (nq4 0 1 0 0)) < texp.
 Proof.
   thr. rewrite (nv3_axis 1), (nq4_axis 1), ln_1, Rabs_R0 by lra. split; lra.
 Qed.
 
-Example C12_log_exp_partial_nonvacuous :
-  0 < nv3 (PI/2) 0 0 < PI /\ texp <= Rabs 1 /\ tuv < exp 1 * sin (nv3 (PI/2) 0 0).
+(* a vector part far below every former threshold is in the domain *)
+Example C12_exp_log_tiny_vector_part :
+  qexp_log Rops KR (0, / 1000000000000000000000000000000, 0, 0) <> TypeErr /\
+  0 < nv3 (/ 1000000000000000000000000000000) 0 0.
 Proof.
-  thr. pose proof PI_RGT_0. rewrite (nv3_axis (PI/2)) by lra. rewrite sin_PI2, Rabs_R1.
-  pose proof (exp_ineq1 1). repeat split; lra.
+  assert (Hn : nv3 (/ 1000000000000000000000000000000) 0 0 = / 1000000000000000000000000000000) by (apply nv3_axis; lra).
+  split; [|rewrite Hn; lra].
+  assert (H0 : nv3 (/ 1000000000000000000000000000000) 0 0 <> 0) by (rewrite Hn; lra).
+  destruct (C12_exp_log_full 0 (/ 1000000000000000000000000000000) 0 0 H0) as (c & E & _). rewrite E. discriminate.
+Qed.
+
+Example C12_log_exp_nonvacuous :
+  0 < nv3 (PI/2) 0 0 < PI /\ texp <= Rabs 1.
+Proof.
+  thr. pose proof PI_RGT_0. rewrite (nv3_axis (PI/2)) by lra. rewrite Rabs_R1. repeat split; lra.
 Qed.
 
 Example C12_log_exp_band_nonvacuous :
-  0 < nv3 (PI/2) 0 0 < PI /\ Rabs 0 < texp /\ tuv < sin (nv3 (PI/2) 0 0).
+  0 < nv3 (PI/2) 0 0 < PI /\ Rabs 0 < texp.
 Proof.
-  thr. pose proof PI_RGT_0. rewrite (nv3_axis (PI/2)) by lra. rewrite sin_PI2, Rabs_R0. repeat split; lra.
+  thr. pose proof PI_RGT_0. rewrite (nv3_axis (PI/2)) by lra. rewrite Rabs_R0. repeat split; lra.
 Qed.
